@@ -211,7 +211,6 @@ def _classify_text(case, impl, why):
     """C39-F1: the or-set value check fails (elements lost; or, as a consequence, a remove that does not take effect on a
     peer because the remover had itself lost the dot) in a script where, before the failing op, some replica performed at
     least two or-set updates and some logged message was delivered - the precondition of the defect.
-    C39-F4: two lww replicas that saw the same writes differ, in a script where one replica wrote two different values under one timestamp.
     C39-F3: or-map replicas that saw the same updates expose the same keys but different values, and a seen update removed a key."""
     why = why or ""
     m = re.search(r"bad op=(\d+) tok=\S+ key=os kind=value exp=(\S*) act=(\S*)", why)
@@ -225,17 +224,6 @@ def _classify_text(case, impl, why):
                 per[f[1]] = per.get(f[1], 0) + 1
         delivered = any(t.startswith("s:") for t in ops)
         return "C39-F1" if delivered and per and max(per.values()) >= 2 else None
-    m = re.search(r"bad op=(\d+) tok=\S+ key=lw kind=converge", why)
-    if m:
-        # C39-F4 (= C38-F1 seen through replication): one replica wrote two different values under one stamp
-        seen = {}
-        for t in case.split()[1:int(m.group(1)) + 1]:
-            f = t.split(":")
-            if f[0] == "u" and len(f) == 4 and f[2] == "lw":
-                a = f[3].split(".")
-                if len(a) == 3:
-                    seen.setdefault((f[1], a[2]), set()).add(a[1])
-        return "C39-F4" if any(len(v) > 1 for v in seen.values()) else None
     m = re.search(r"key=om kind=converge other=\d+ a=(\S*) b=(\S*) rem=1$", why)
     if m and m.group(1).split("#")[0] == m.group(2).split("#")[0]:
         return "C39-F3"
